@@ -36,11 +36,19 @@ struct Cfg {
     bound: u32,
     /// > 0: caller 0's response body has this many bytes
     big: usize,
+    /// the router has an event sender (control connection); the peer may interleave EVENT frames (stream -1) and a frame on stream -2
+    events: bool,
+    /// > 0: the stream accepts at most this many bytes per write call (short writes)
+    write_chunk: usize,
+    /// > 0: caller 1's request body is padded to this many bytes (larger than the 8 KiB write buffer)
+    big_req: usize,
+    /// split responses after EVERY header byte (else: after byte 1, after the header, mid-body)
+    all_cuts: bool,
 }
 
 impl Cfg {
     fn to_json(&self, choices: &[usize]) -> Value {
-        json!({"leg":"router-sched","n":self.n,"coalescing":self.coalescing,"read_chunk":self.read_chunk,"capacity":self.capacity,"prefill":self.prefill,"bound":self.bound,"big":self.big,"choices":choices})
+        json!({"leg":"router-sched","n":self.n,"coalescing":self.coalescing,"read_chunk":self.read_chunk,"capacity":self.capacity,"prefill":self.prefill,"bound":self.bound,"big":self.big,"events":self.events,"write_chunk":self.write_chunk,"big_req":self.big_req,"all_cuts":self.all_cuts,"choices":choices})
     }
     fn from_json(v: &Value) -> Cfg {
         Cfg {
@@ -51,6 +59,10 @@ impl Cfg {
             prefill: v["prefill"].as_u64().unwrap_or(0) as usize,
             bound: v["bound"].as_u64().unwrap_or(2) as u32,
             big: v["big"].as_u64().unwrap_or(0) as usize,
+            events: v["events"].as_bool().unwrap_or(false),
+            write_chunk: v["write_chunk"].as_u64().unwrap_or(0) as usize,
+            big_req: v["big_req"].as_u64().unwrap_or(0) as usize,
+            all_cuts: v["all_cuts"].as_bool().unwrap_or(false),
         }
     }
 }
@@ -64,6 +76,8 @@ enum Act {
     DeliverRest,
     Cancel(usize),
     Advance,
+    /// the peer writes a frame that answers nobody: an EVENT on stream -1 (first time) / a frame on stream -2 (second time)
+    Unsolicited,
 }
 
 #[derive(Default, Debug)]
@@ -76,13 +90,15 @@ struct Run {
     orphan_answers: u64,
     refused: u64,
     splits: u64,
+    unsolicited: u64,
 }
 
 fn run_one(cfg: &Cfg, ch: &mut Chooser) -> (Result<(), String>, Run) {
     vasync::run(|| async move {
         let mut run = Run::default();
-        let rcfg = hook::RouterCfg { write_coalescing_delay: coalescing_of(&cfg.coalescing), keepalive_interval: None, keepalive_timeout: None, submit_channel_capacity: cfg.capacity, prefill: cfg.prefill };
+        let rcfg = hook::RouterCfg { write_coalescing_delay: coalescing_of(&cfg.coalescing), keepalive_interval: None, keepalive_timeout: None, submit_channel_capacity: cfg.capacity, prefill: cfg.prefill, event_channel_capacity: if cfg.events { 16 } else { 0 } };
         let mut w = World::new(rcfg, cfg.read_chunk);
+        w.ctl.0.borrow_mut().max_write_chunk = cfg.write_chunk;
         let r = drive(cfg, ch, &mut w, &mut run).await;
         run.coalesced = w.max_frames_per_write >= 2;
         run.trace = w.finish_trace();
@@ -91,8 +107,10 @@ fn run_one(cfg: &Cfg, ch: &mut Chooser) -> (Result<(), String>, Run) {
     })
 }
 
-fn cuts_for(len: usize) -> Vec<usize> {
-    let mut v = vec![1usize];
+/// where a response may be split: after every header byte (1..=8: inside version/flags/stream/opcode/length), after the
+/// complete header, and in the middle of the body
+fn cuts_for(len: usize, all: bool) -> Vec<usize> {
+    let mut v: Vec<usize> = if all { (1..=8).collect() } else { vec![1] };
     if len > 9 {
         v.push(9);
     }
@@ -110,12 +128,14 @@ async fn drive(cfg: &Cfg, ch: &mut Chooser, w: &mut World, run: &mut Run) -> Res
     let mut partial: Option<(i16, Option<usize>, Vec<u8>)> = None;
     let mut steps = 0;
     let mut advances = 0;
+    let mut unsolicited_sent = 0u8;
     loop {
         steps += 1;
         if steps > 400 {
             return Err("livelock|400 steps without reaching a terminal state".into());
         }
         w.ingest()?;
+        w.drain_events();
         // newly completed callers
         for i in 0..w.callers.len() {
             if w.callers[i].checked || w.callers[i].cancelled {
@@ -174,10 +194,13 @@ async fn drive(cfg: &Cfg, ch: &mut Chooser, w: &mut World, run: &mut Run) -> Res
             }
             for pos in 0..w.held.len() {
                 let len = w.response_frame(&w.held[pos]).encode().len();
-                for cut in cuts_for(len) {
+                for cut in cuts_for(len, cfg.all_cuts) {
                     alts.push((Act::RespondSplit(pos, cut), env(1)));
                 }
             }
+        }
+        if cfg.events && partial.is_none() && unsolicited_sent < 2 && (next_start > 0) {
+            alts.push((Act::Unsolicited, env(1)));
         }
         let has_free = alts.iter().any(|(_, c)| *c == 0);
         if !has_free {
@@ -198,7 +221,12 @@ async fn drive(cfg: &Cfg, ch: &mut Chooser, w: &mut World, run: &mut Run) -> Res
         match alts[pick].0.clone() {
             Act::Poll(t) => w.poll_task(t).await,
             Act::Start => {
-                w.start_caller(if next_start == 0 && cfg.big > 0 { caller_spec_big(0, cfg.big) } else { caller_spec(next_start) });
+                let mut spec = if next_start == 0 && cfg.big > 0 { caller_spec_big(0, cfg.big) } else { caller_spec(next_start) };
+                if next_start == 1 && cfg.big_req > 0 {
+                    let pad = cfg.big_req.saturating_sub(spec.request_body.len());
+                    spec.request_body.extend(std::iter::repeat_n(b'.', pad));
+                }
+                w.start_caller(spec);
                 next_start += 1;
             }
             Act::Advance => {
@@ -245,6 +273,12 @@ async fn drive(cfg: &Cfg, ch: &mut Chooser, w: &mut World, run: &mut Run) -> Res
                 w.mark_answered(pos);
                 w.deliver(&rest, &format!("rest of the response on stream {stream}"));
             }
+            Act::Unsolicited => {
+                let f = if unsolicited_sent == 0 { event_frame(9) } else { Frame::response(-2, OP_RESULT, b"nobody") };
+                unsolicited_sent += 1;
+                run.unsolicited += 1;
+                w.deliver(&f.encode(), &format!("a frame on stream {} that answers nobody", f.stream));
+            }
             Act::Cancel(i) => {
                 // "answered but not polled": the router has put the response into the caller's channel (the caller
                 // task is woken) and the caller's future is dropped before it looks
@@ -287,9 +321,9 @@ fn configs(thorough: bool) -> Vec<Cfg> {
                 if !thorough && capacity == 1 && (read_chunk == 1 || co == "1ms") {
                     continue;
                 }
-                v.push(Cfg { n: 2, coalescing: co.into(), read_chunk, capacity, prefill: 0, bound: b2, big: 0 });
+                v.push(Cfg { n: 2, coalescing: co.into(), read_chunk, capacity, prefill: 0, bound: b2, big: 0, events: false, write_chunk: 0, big_req: 0, all_cuts: thorough });
                 // (1 ms coalescing adds a free 'advance' alternative at most steps: one bound lower in the quick tier)
-                v.push(Cfg { n: 3, coalescing: co.into(), read_chunk, capacity, prefill: 0, bound: if co == "1ms" && !thorough { b3 - 1 } else { b3 }, big: 0 });
+                v.push(Cfg { n: 3, coalescing: co.into(), read_chunk, capacity, prefill: 0, bound: if co == "1ms" && !thorough { b3 - 1 } else { b3 }, big: 0, events: false, write_chunk: 0, big_req: 0, all_cuts: thorough });
             }
         }
     }
@@ -300,14 +334,39 @@ fn configs(thorough: bool) -> Vec<Cfg> {
             if !thorough && read_chunk == 4096 && big % 2 == 0 {
                 continue;
             }
-            v.push(Cfg { n: 2, coalescing: "yield".into(), read_chunk, capacity: 0, prefill: 0, bound: if thorough { 2 } else { 1 }, big });
+            v.push(Cfg { n: 2, coalescing: "yield".into(), read_chunk, capacity: 0, prefill: 0, bound: if thorough { 2 } else { 1 }, big, events: false, write_chunk: 0, big_req: 0, all_cuts: thorough });
         }
     }
-        // exhaustion through the real writer path: the router's own map pre-filled by 32768-j real allocate calls
+        // every header split offset (quick: at one bound lower than the families above; thorough has it everywhere)
+    if !thorough {
+        for co in ["yield", "off"] {
+            for read_chunk in [0usize, 1] {
+                v.push(Cfg { n: 2, coalescing: co.into(), read_chunk, capacity: 0, prefill: 0, bound: 2, big: 0, events: false, write_chunk: 0, big_req: 0, all_cuts: true });
+                v.push(Cfg { n: 3, coalescing: co.into(), read_chunk, capacity: 0, prefill: 0, bound: 1, big: 0, events: false, write_chunk: 0, big_req: 0, all_cuts: true });
+            }
+        }
+    }
+    // a control connection: EVENT frames (stream -1) and a frame on stream -2 interleaved with the responses
+    for co in ["yield", "off"] {
+        v.push(Cfg { n: 2, coalescing: co.into(), read_chunk: 0, capacity: 0, prefill: 0, bound: if thorough { 3 } else { 2 }, big: 0, events: true, write_chunk: 0, big_req: 0, all_cuts: thorough });
+        v.push(Cfg { n: 3, coalescing: co.into(), read_chunk: 0, capacity: 0, prefill: 0, bound: if thorough { 2 } else { 1 }, big: 0, events: true, write_chunk: 0, big_req: 0, all_cuts: thorough });
+    }
+    // short writes (7 bytes per write call) and a request larger than the 8 KiB write buffer
+    for (write_chunk, big_req) in [(7usize, 0usize), (0, 20_000), (1000, 70_000)] {
+        for co in ["yield", "off"] {
+            v.push(Cfg { n: 3, coalescing: co.into(), read_chunk: 0, capacity: 0, prefill: 0, bound: if thorough { 2 } else { 1 }, big: 0, events: false, write_chunk, big_req, all_cuts: thorough });
+        }
+    }
+    // stream ids around 255 / 2047 / 2048 / 4095 / 4096 on the wire (the ids below are taken by pre-filled handlers): the peer
+    // answers on the id it read from the frame, so an id that is not carried intact never reaches its caller
+    for p in if thorough { vec![255usize, 256, 2047, 2048, 4095, 4096, 16384] } else { vec![255usize, 2047, 2048, 4095, 4096] } {
+        v.push(Cfg { n: 3, coalescing: "yield".into(), read_chunk: 0, capacity: 0, prefill: p, bound: 1, big: 0, events: false, write_chunk: 0, big_req: 0, all_cuts: thorough });
+    }
+    // exhaustion through the real writer path: the router's own map pre-filled by 32768-j real allocate calls
     for j in if thorough { vec![0usize, 1, 2] } else { vec![1usize] } {
-        v.push(Cfg { n: 2, coalescing: "yield".into(), read_chunk: 0, capacity: 0, prefill: 32768 - j, bound: if thorough { 2 } else { 1 }, big: 0 });
+        v.push(Cfg { n: 2, coalescing: "yield".into(), read_chunk: 0, capacity: 0, prefill: 32768 - j, bound: if thorough { 2 } else { 1 }, big: 0, events: false, write_chunk: 0, big_req: 0, all_cuts: thorough });
         if thorough {
-            v.push(Cfg { n: 3, coalescing: "yield".into(), read_chunk: 0, capacity: 0, prefill: 32768 - j, bound: 1, big: 0 });
+            v.push(Cfg { n: 3, coalescing: "yield".into(), read_chunk: 0, capacity: 0, prefill: 32768 - j, bound: 1, big: 0, events: false, write_chunk: 0, big_req: 0, all_cuts: thorough });
         }
     }
     v
@@ -372,6 +431,7 @@ fn main() {
             r_ref.counters.add("responses_to_cancelled_callers", run.orphan_answers);
             r_ref.counters.add("callers_refused_no_stream_id", run.refused);
             r_ref.counters.add("split_responses", run.splits);
+            r_ref.counters.add("event_or_negative_stream_frames_interleaved", run.unsolicited);
             if !run.signature.is_empty() {
                 signatures.lock().unwrap().insert(run.signature.clone());
             }
@@ -413,8 +473,8 @@ fn main() {
         r.eval(n_exec);
         r.transitions.fetch_add(n_exec, Ordering::Relaxed);
         r.nontrivial(nontrivial.load(Ordering::Relaxed));
-        println!("cfg n={} big={:<6} coalescing={:<5} read_chunk={} capacity={} prefill={:<5} bound={} executions={} max_points={} violations={} capped={:?} wall={:.1}s", cfg.n, cfg.big, cfg.coalescing, cfg.read_chunk, cfg.capacity, cfg.prefill, cfg.bound, n_exec, res.max_points, res.violations.len(), res.capped, t0.elapsed().as_secs_f64());
-        per_cfg.push(json!({"n":cfg.n,"big_body":cfg.big,"coalescing":cfg.coalescing,"read_chunk":cfg.read_chunk,"capacity":cfg.capacity,"prefill":cfg.prefill,"bound_completed":if res.capped.is_none() { json!(cfg.bound) } else { json!(null) },"executions":n_exec,"max_choice_points":res.max_points,"capped":res.capped}));
+        println!("cfg n={} ev={} wchunk={} bigreq={} big={:<6} coalescing={:<5} read_chunk={} capacity={} prefill={:<5} bound={} executions={} max_points={} violations={} capped={:?} wall={:.1}s", cfg.n, cfg.events as u8, cfg.write_chunk, cfg.big_req, cfg.big, cfg.coalescing, cfg.read_chunk, cfg.capacity, cfg.prefill, cfg.bound, n_exec, res.max_points, res.violations.len(), res.capped, t0.elapsed().as_secs_f64());
+        per_cfg.push(json!({"n":cfg.n,"big_body":cfg.big,"events":cfg.events,"write_chunk":cfg.write_chunk,"big_request":cfg.big_req,"coalescing":cfg.coalescing,"read_chunk":cfg.read_chunk,"capacity":cfg.capacity,"prefill":cfg.prefill,"bound_completed":if res.capped.is_none() { json!(cfg.bound) } else { json!(null) },"executions":n_exec,"max_choice_points":res.max_points,"capped":res.capped}));
         if let Some(t) = res.sample_traces.last() {
             r.sample(cfg.to_json(t));
         }
@@ -434,7 +494,7 @@ fn main() {
     if sigs.len() < 2 && r.violation_count() == 0 {
         vcore::machinery_error("vacuous: fewer than 2 distinct outcome signatures");
     }
-    r.set_rule("E-ASYNC/E-DFS on the real Connection::router with real send_request callers over a scripted stream. Per configuration (n callers x write coalescing off/yield/1ms x short reads x submit-channel capacity x pre-filled id space x a 32767..100000-byte response body for caller 0) every choice sequence within the deviation bound is executed; free choices: which woken task is lowest (default), start next caller / answer any held request whole at a quiescent point (so all response orders and all submission-response interleavings are covered at bound 0); 1 deviation each: poll another woken task, any environment action while a task is woken, split a response (inside header / after header / inside body), drop a caller's future. evaluations = executions (also reported as transitions). distinct_nontrivial = executions in which a caller was dropped while the peer owed its response and the peer answered that stream afterwards (cancellation notice and response in flight for the same stream). traces_validated_against_impl = executions replayed a second time with the full observation trace compared (determinism audit of select!-branch randomness), plus every violation.");
+    r.set_rule("E-ASYNC/E-DFS on the real Connection::router with real send_request callers over a scripted stream. Per configuration (n callers x write coalescing off/yield/1ms x short reads x submit-channel capacity x pre-filled id space x a 32767..100000-byte response body for caller 0) every choice sequence within the deviation bound is executed; free choices: which woken task is lowest (default), start next caller / answer any held request whole at a quiescent point (so all response orders and all submission-response interleavings are covered at bound 0); 1 deviation each: poll another woken task, any environment action while a task is woken, split a response (after every header byte 1..8 / after the header / inside the body), interleave an EVENT or a negative-stream frame (control-connection configurations), drop a caller's future. evaluations = executions (also reported as transitions). distinct_nontrivial = executions in which a caller was dropped while the peer owed its response and the peer answered that stream afterwards (cancellation notice and response in flight for the same stream). traces_validated_against_impl = executions replayed a second time with the full observation trace compared (determinism audit of select!-branch randomness), plus every violation.");
     r.assume("the default schedule polls the lowest woken task id (router first); every other order costs deviations, so coverage is 'all schedules within the bound', not all schedules");
     r.finish();
 }
